@@ -25,6 +25,7 @@ import (
 	"net/http/httptest"
 	"os"
 	"path/filepath"
+	"strings"
 	"testing"
 	"time"
 
@@ -104,7 +105,25 @@ const (
 )
 
 // outcome of an authenticator on a request carrying the given credentials
-func asmCoqAuthn(m, creds string) string {
+// a mechanism reference may carry a step-level `config:` override: "basic+fb" = basic with
+// allow_fallback_on_error: true, "basic_fb-fb" = basic_fb with allow_fallback_on_error: false,
+// "ctx_fail+cont" / "ctx_fail_cont-cont" likewise for continue_pipeline_on_error
+func asmSplit(ref string) (id string, override *bool) {
+	t, f := true, false
+
+	switch {
+	case strings.HasSuffix(ref, "+fb"), strings.HasSuffix(ref, "+cont"):
+		return ref[:strings.LastIndex(ref, "+")], &t
+	case strings.HasSuffix(ref, "-fb"), strings.HasSuffix(ref, "-cont"):
+		return ref[:strings.LastIndex(ref, "-")], &f
+	}
+
+	return ref, nil
+}
+
+func asmCoqAuthn(ref, creds string) string {
+	m, override := asmSplit(ref)
+
 	switch m {
 	case "anon":
 		return "(au Ok false)"
@@ -121,14 +140,22 @@ func asmCoqAuthn(m, creds string) string {
 		out = asmMissing
 	}
 
-	return vf.CoqApp("au", out, vf.CoqBool(m == "basic_fb"))
+	fb := m == "basic_fb"
+	if override != nil {
+		fb = *override
+	}
+
+	return vf.CoqApp("au", out, vf.CoqBool(fb))
 }
 
 func asmCoqStep(s asmStep) string {
 	out, cont := "Ok", false
+	m, override := asmSplit(s.M)
 
-	switch s.M {
-	case "deny", "cel_false":
+	switch m {
+	case "hdr_bad":
+		out = "(Fail (Chain [sInt; (Foreign 2%nat)] true))"
+	case "deny", "cel_false", "remote_deny":
 		out = asmAuthz
 	case "ctx_fail":
 		out = asmComm
@@ -136,6 +163,10 @@ func asmCoqStep(s asmStep) string {
 		out, cont = asmComm, true
 	case "ctx_ok_cont":
 		cont = true
+	}
+
+	if override != nil {
+		cont = *override
 	}
 
 	return vf.CoqApp("stp", asmCoqCond(s.If), out, vf.CoqBool(cont))
@@ -226,6 +257,10 @@ func asmMechanisms(helper string) map[string]any {
 				"config": map[string]any{"expressions": []any{map[string]any{"expression": `Request.Method == "GET"`}}}},
 			map[string]any{"id": "cel_false", "type": "cel",
 				"config": map[string]any{"expressions": []any{map[string]any{"expression": `Request.Method == "POST"`, "message": "no"}}}},
+			map[string]any{"id": "remote_ok", "type": "remote", "config": map[string]any{
+				"endpoint": map[string]any{"url": helper + "/ok", "method": "POST"}, "payload": "{}", "cache_ttl": "0s"}},
+			map[string]any{"id": "remote_deny", "type": "remote", "config": map[string]any{
+				"endpoint": map[string]any{"url": helper + "/deny", "method": "POST"}, "payload": "{}", "cache_ttl": "0s"}},
 		},
 		"contextualizers": []any{
 			map[string]any{"id": "ctx_ok", "type": "generic", "config": ep("/ok")},
@@ -236,6 +271,9 @@ func asmMechanisms(helper string) map[string]any {
 		"finalizers": []any{
 			map[string]any{"id": "noop", "type": "noop"},
 			map[string]any{"id": "hdr", "type": "header", "config": map[string]any{"headers": map[string]any{"X-User": "{{ .Subject.ID }}"}}},
+			// a finalizer that fails: the template cannot be rendered
+			map[string]any{"id": "hdr_bad", "type": "header",
+				"config": map[string]any{"headers": map[string]any{"X-Bad": "{{ len .Subject.Attributes.nope }}"}}},
 		},
 		"error_handlers": []any{
 			map[string]any{"id": "dflt", "type": "default"},
@@ -252,18 +290,31 @@ func asmMechanisms(helper string) map[string]any {
 var asmKinds = map[string]string{ //nolint:gochecknoglobals
 	"allow": "authorizer", "deny": "authorizer", "cel_true": "authorizer", "cel_false": "authorizer",
 	"ctx_ok": "contextualizer", "ctx_ok_cont": "contextualizer", "ctx_fail": "contextualizer", "ctx_fail_cont": "contextualizer",
-	"noop": "finalizer", "hdr": "finalizer",
+	"noop": "finalizer", "hdr": "finalizer", "hdr_bad": "finalizer", "remote_ok": "authorizer", "remote_deny": "authorizer",
 }
 
 func asmExecute(r *asmRule) []any {
 	var out []any
 
 	for _, a := range r.Authn {
-		out = append(out, map[string]any{"authenticator": a})
+		id, override := asmSplit(a)
+		m := map[string]any{"authenticator": id}
+
+		if override != nil {
+			m["config"] = map[string]any{"allow_fallback_on_error": *override}
+		}
+
+		out = append(out, m)
 	}
 
 	for _, s := range append(append([]asmStep{}, r.SH...), r.FI...) {
-		m := map[string]any{asmKinds[s.M]: s.M}
+		id, override := asmSplit(s.M)
+		m := map[string]any{asmKinds[id]: id}
+
+		if override != nil {
+			m["config"] = map[string]any{"continue_pipeline_on_error": *override}
+		}
+
 		if s.If != "" {
 			m["if"] = asmConds[s.If]
 		}
@@ -461,7 +512,22 @@ func asmGenRule(r *vf.Rand, calm, isDefault bool) *asmRule {
 	}
 
 	for i := 0; i < n; i++ {
-		rl.Authn = append(rl.Authn, vf.Pick(r, []string{"anon", "unauth", "basic", "basic_fb", "basic", "basic_fb"}))
+		a := vf.Pick(r, []string{"anon", "unauth", "basic", "basic_fb", "basic", "basic_fb"})
+		if !isDefault && r.Chance(30) {
+			// step-level config override of the fallback flag
+			a = map[string]string{"basic": "basic+fb", "basic_fb": "basic_fb-fb"}[a] + map[bool]string{true: a}[a == "anon" || a == "unauth"]
+		}
+
+		rl.Authn = append(rl.Authn, a)
+	}
+
+	// make a step-level override of the fallback flag decisive: the overridden authenticator first, anonymous behind it
+	for _, a := range rl.Authn {
+		if _, o := asmSplit(a); o != nil && r.Chance(70) {
+			rl.Authn = []string{a, "anon"}
+
+			break
+		}
 	}
 
 	cond := func() string {
@@ -473,12 +539,20 @@ func asmGenRule(r *vf.Rand, calm, isDefault bool) *asmRule {
 	}
 
 	for i, m := 0, r.Intn(5); i < m; i++ {
-		rl.SH = append(rl.SH, asmStep{M: pickGood([]string{"allow", "cel_true", "ctx_ok", "ctx_ok_cont", "ctx_fail_cont"},
-			[]string{"deny", "cel_false", "ctx_fail", "ctx_fail_cont"}), If: cond()})
+		m := pickGood([]string{"allow", "cel_true", "ctx_ok", "ctx_ok_cont", "ctx_fail_cont", "remote_ok"},
+			[]string{"deny", "cel_false", "ctx_fail", "ctx_fail_cont", "remote_deny"})
+		if !isDefault && r.Chance(35) {
+			// step-level config override of continue_pipeline_on_error
+			if o, ok := map[string]string{"ctx_fail": "ctx_fail+cont", "ctx_fail_cont": "ctx_fail_cont-cont", "ctx_ok": "ctx_ok+cont"}[m]; ok {
+				m = o
+			}
+		}
+
+		rl.SH = append(rl.SH, asmStep{M: m, If: cond()})
 	}
 
 	for i, m := 0, r.Intn(3); i < m; i++ {
-		rl.FI = append(rl.FI, asmStep{M: vf.Pick(r, []string{"noop", "hdr"}), If: cond()})
+		rl.FI = append(rl.FI, asmStep{M: vf.Pick(r, []string{"noop", "hdr", "noop", "hdr", "hdr_bad"}), If: cond()})
 	}
 
 	for i, m := 0, r.Intn(4); i < m; i++ {
@@ -682,7 +756,7 @@ func asmCoqCase(c asmCase, b asmBatch, o asmObs) string {
 		l = "NoRule"
 	}
 
-	return vf.CoqApp("mkcase", cfg, l, vf.CoqApp("rq", vf.CoqBool(c.Slash)),
+	return vf.CoqApp("mkcase", cfg, l, vf.CoqApp("rq", vf.CoqBool(c.Slash), "(UpOk 200%Z)"),
 		asmCoqEntry(o.Decision), asmCoqEntry(o.Proxy), asmCoqEntry(o.Envoy))
 }
 
@@ -755,8 +829,8 @@ func asmNontrivial(c asmCase, b asmBatch) bool {
 	}
 
 	for _, s := range append(append([]asmStep{}, r.SH...), r.FI...) {
-		if s.If == "false" || s.If == "post" || s.If == "rterr" || s.M == "deny" || s.M == "cel_false" || s.M == "ctx_fail" ||
-			s.M == "ctx_fail_cont" {
+		if s.If == "false" || s.If == "post" || s.If == "rterr" || s.M == "deny" || s.M == "cel_false" || strings.HasPrefix(s.M, "ctx_fail") ||
+			s.M == "remote_deny" || s.M == "hdr_bad" {
 			return true
 		}
 	}
@@ -776,6 +850,12 @@ func TestVerifC01Assembled(t *testing.T) {
 			rw.Header().Set("Content-Type", "application/json")
 			rw.WriteHeader(http.StatusOK)
 			rw.Write([]byte(`{"a":"b"}`)) //nolint:errcheck
+
+			return
+		}
+
+		if req.URL.Path == "/deny" {
+			rw.WriteHeader(http.StatusForbidden)
 
 			return
 		}
